@@ -981,6 +981,12 @@ func opGrp(fails *[]string, prog string, batch bool) string {
 		for i, e := range valid {
 			keep[i] = *e
 		}
+		validPtrs := append([]*banderwagon.Element(nil), valid...)
+		defer func() {
+			for i := range valid {
+				assertf(fails, valid[i] == validPtrs[i], "a batch helper changed the caller's list: slot %d now holds another pointer", i)
+			}
+		}()
 		cb := banderwagon.ElementsToBytes(valid...)
 		ub := banderwagon.BatchToBytesUncompressed(valid...)
 		maps := make([]*fr.Element, len(valid))
@@ -1043,8 +1049,12 @@ func opGrp(fails *[]string, prog string, batch bool) string {
 				copies[i] = &c
 			}
 		}
+		keepPtrs := append([]*banderwagon.Element(nil), copies...)
 		err = banderwagon.BatchNormalize(copies)
 		assertf(fails, err == nil, "BatchNormalize failed on valid elements")
+		for i := range copies {
+			assertf(fails, copies[i] == keepPtrs[i], "BatchNormalize changed the caller's list: slot %d now holds another pointer", i)
+		}
 		for i, c := range copies {
 			_, _, z := banderwagon.VerifCoords(c)
 			assertf(fails, z.IsOne(), "BatchNormalize left Z != 1 at %d", i)
@@ -1762,9 +1772,15 @@ func opCommitLin(fails *[]string, f []string) string {
 func opBatchFail(fails *[]string, prog string, pos int) string {
 	regs := runProg(fails, prog)
 	var els []*banderwagon.Element
+	seen := map[*banderwagon.Element]*banderwagon.Element{} // copies that preserve the pointer aliasing of the registers
 	for _, r := range regs {
 		if !r.zero && r.e != nil {
+			if c, ok := seen[r.e]; ok {
+				els = append(els, c)
+				continue
+			}
 			c := *r.e
+			seen[r.e] = &c
 			els = append(els, &c)
 		}
 	}
@@ -1779,11 +1795,15 @@ func opBatchFail(fails *[]string, prog string, pos int) string {
 	for i := range els {
 		keep[i] = *els[i]
 	}
+	keepPtrs := append([]*banderwagon.Element(nil), els...)
 	err := banderwagon.BatchNormalize(els)
 	if err == nil {
 		return "no-error"
 	}
 	for i := range els {
+		if els[i] != keepPtrs[i] {
+			return fmt.Sprintf("err-list-modified-%d", i)
+		}
 		if *els[i] != keep[i] {
 			return fmt.Sprintf("err-modified-%d", i)
 		}
